@@ -488,4 +488,54 @@ theorem avg_ignores_ids (mi : Int) (items items' : List (Int × T)) (h : items.m
 example : Go.avgDistanceMatrixIds 0 [(0, exAb), (1, exAb)] = .ok (["a", "b"], [[0, 3], [3, 0]]) ∧
     Go.avgDistanceMatrixIds 0 [(7, exAb), (7, exAb)] = .ok (["a", "b"], [[0, 3], [3, 0]]) := by decide +kernel
 
+/-! ## Round 5 -/
+
+/-- what the code does with a branch that has no length, read off the model: it is crossed by
+    the flood iff `-1 < thr` -/
+def lengthlessRule (thr : Rat) (t : T) (a b : String) : Bool :=
+  t.splits.all fun s => !(s.sep a b) ||
+    (if s.e.len == NIL then decide ((-1 : Rat) < thr) else decide (s.e.len < thr))
+
+/-- The cut for EVERY threshold, thresholds ≤ 0 included, where the documentation is silent and
+    the oracle judges nothing: two tips share a bag iff every branch between them has a length
+    shorter than the threshold or has no length while `-1 < thr` — for the rose-tree model and,
+    by `cutGo_is_cut`, for the statement-level `CutEdgesMaxLength`.  So at a threshold in (−1, 0]
+    length-less branches join what zero-length branches separate (`cut_lengthless_witness`),
+    whereas the matrix counts both as 0. -/
+theorem cut_lengthless_rule (thr : Rat) (t : T) (hu : t.tipNames.Nodup) (a b : String)
+    (ha : a ∈ t.tipNames) (hb : b ∈ t.tipNames) :
+    sameBag (cut thr t) a b = lengthlessRule thr t a b ∧
+    ∃ bags, Go.cutGo thr t = .ok bags ∧ sameBag bags a b = lengthlessRule thr t a b := by
+  have hr : pathShort thr t a b = lengthlessRule thr t a b := by
+    unfold pathShort lengthlessRule
+    congr 1
+    funext s
+    by_cases h : s.e.len = NIL
+    · simp [h, NIL]
+    · have : (s.e.len == NIL) = false := by simpa using h
+      simp [this]
+  refine ⟨by rw [cut_components thr t hu a b ha hb, hr], ?_⟩
+  obtain ⟨bags, h1, h2, _⟩ := cutGo_is_cut thr t hu
+  exact ⟨bags, h1, by rw [sameBag_LPerm h2, cut_components thr t hu a b ha hb, hr]⟩
+
+/-- `(a,b,(c:0,d:0):0);` — no length on a and b, zero lengths elsewhere -/
+def exMixed : T :=
+  .node ⟨"", []⟩ 0 [
+    (EdgeD.blank, T.leaf "a"), (EdgeD.blank, T.leaf "b"),
+    (mkE 0 2, .node ⟨"", []⟩ 0 [(mkE 0 3, T.leaf "c"), (mkE 0 4, T.leaf "d")])]
+
+/-- the reproducer `echo "(a,b,(c:0,d:0):0);" | gotree brlen cut -l 0`: a and b together, c and d
+    alone, although every pairwise distance of `gotree matrix` is 0 -/
+theorem cut_lengthless_witness :
+    cut 0 exMixed = [["a", "b"], ["c"], ["d"]] ∧ Go.cutGo 0 exMixed = .ok [["a", "b"], ["c"], ["d"]] ∧
+    Go.matrixGo 0 exMixed = some (["a", "b", "c", "d"], [[0, 0, 0, 0], [0, 0, 0, 0], [0, 0, 0, 0], [0, 0, 0, 0]]) ∧
+    pathShortDoc 0 exMixed "a" "b" = none ∧ pathShortDoc 0 exMixed "c" "d" = some false := by decide +kernel
+
+/- the hypotheses of `cut_flood` on a concrete graph: the subtree ((A,B),C) below the tip root D
+   of `exTipRoot` sits at node 1 of the pointer graph, its branches from index 1 on -/
+example : Sub (Go.G.ofT exTipRoot).nodes 1 (Go.flatT (some 0) 1
+    (.node ⟨"", []⟩ 0 [(mkE (1/2) 0, .node ⟨"", []⟩ 0 [(mkE 1 1, T.leaf "A"), (mkE 2 2, T.leaf "B")]), (mkE 3 3, T.leaf "C")])) :=
+  ⟨[⟨"D", [(1, 0)]⟩], [], rfl, rfl⟩
+example : ∃ b, (Go.G.ofT exTipRoot).edges[1 - 1]? = some b := ⟨_, rfl⟩
+
 end Gotree.C14
